@@ -2,7 +2,7 @@
 import struct
 from common import *
 
-RULE = ("0-12 notes with names of 0-20 bytes and descriptors of 0-64 bytes (all residues mod 4) added through one accessor (a third of the sequences also re-add descriptors by the pointer get_note() returned, i.e. a pointer into the section), "
+RULE = ("note sections with sh_addralign 0/1/4/8/16; 0-12 notes with names of 0-20 bytes and descriptors of 0-64 bytes (all residues mod 4) added through one accessor (a third of the sequences also re-add descriptors by the pointer get_note() returned, i.e. a pointer into the section), "
         "read back through it and through a fresh accessor at every index plus count, count+1, size-1, size, 2^32-1 and random "
         "32-bit indices, in all 4 configurations; section bytes compared with the ABI encoding. Non-trivial = at least 2 notes "
         "and at least one out-of-range index probed.")
@@ -53,8 +53,9 @@ def unhexs(h):
     return b"" if h == "-" else bytes.fromhex(h)
 
 
-def mk_case(cid, cfg, ops):
-    lines = ["ctor plain", "create %s %s" % cfg, "addsec " + hx(b".note"), "secset 2 type 7", "secset 2 addralign 4"]
+def mk_case(cid, cfg, ops, align=4):
+    """[align]: sh_addralign of the note section (the note format pads to four bytes whatever it says)"""
+    lines = ["ctor plain", "create %s %s" % cfg, "addsec " + hx(b".note"), "secset 2 type 7", "secset 2 addralign %d" % align]
     for o in ops:
         if o[0] == "addself":
             lines.append("noteaddself %d %d %s %d" % (o[1], o[2], hx(o[3]), o[4]))
@@ -156,7 +157,7 @@ def generate(rng, tier):
             for ix in idxs:
                 ops.append(("get", acc, ix))
         ops.append(("data",))
-        cases.append(mk_case("r%d" % i, cfg, ops))
+        cases.append(mk_case("r%d" % i, cfg, ops, align=rng.choice([4, 4, 8, 8, 1, 0, 16])))
     return cases
 
 
